@@ -8,13 +8,14 @@ func init() {
 	Register(&Property{
 		ID: "C13",
 		Decides: "(R13.1) SuffrageProof.Prove succeeds only after the fixed-tree proof was proved for the state's own hash; except at genesis only if the state's previous hash equals the given previous state's hash, the state is higher, the previous state is a suffrage state and the suffrage height is previous+1; at genesis only with a nil previous state and a genesis-height state; IsValid ties the state's height to the manifest's; " +
-			"(R13.2) the proof's root (last proof node) is compared with the manifest's states-tree root before success; (R13.3) the suffrage builder proves each fetched proof against the local previous state (first) or its stored neighbours.",
-		NotDecided: "soundness of the fixed-tree proof itself (C12); authenticity of the block map's signatures.",
+			"(R13.2) the proof's root (last proof node) is compared with the manifest's states-tree root before success; (R13.3) the suffrage builder proves each fetched proof against the local previous state (first) or its stored neighbours; (R13.5/R13.6) the fixed-tree proof that call relies on (the C12 rules for nodeHash, Proof.Prove and Proof.IsValid) binds the proved key through recomputed hashes to the root.",
+		NotDecided: "the parts of the fixed tree not used by a suffrage proof (tree construction and validation, C12); authenticity of the block map's signatures.",
 		Run:        runC13,
 	})
 }
 
 func runC13(c *Ctx) {
+	fixedtreeProofRules(c, "R13.5", "R13.6")
 	c.Rule("R13.1", "MustPass")
 	if fn := c.Need("isaac/block.(SuffrageProof).Prove"); fn != nil {
 		succ := c.SuccessReturns(fn)
